@@ -61,3 +61,54 @@ def loop_kernel_body(macro_text, params=("lhs", "rhs", "out")):
     if n != 1 or "zip(" in b or "iter()" in b or "iter_mut()" in b:
         raise AnchorLost("kernel is not a single index loop")
     return b
+
+
+def zip_kernel_body(macro_text, kern, params=("lhs", "rhs", "out")):
+    """The matrix-with-vector kernels (`«op»_mat_vec_op`, `_vec_mat_op`, `_mat_row_op`, `_row_mat_op`): an outer loop that pairs the columns (rows) of `out` with the
+    columns (rows) of the MATRIX operand, and an inner index loop over one column (row).  K1-K3 as for the loop kernels; then
+      K4 the outer header `for (mut C, MC) in out.column_iter_mut().zip(M.column_iter())` (resp. row_iter_mut / row_iter) is CHECKED -- both iterators of the expected
+         kind (columns for mat_vec / vec_mat, rows for mat_row / row_mat), M the expected matrix operand (lhs for mat_*, rhs for *_mat) -- and DROPPED: that nalgebra
+         pairs line j of `out` with line j of M, each once, is ASSUMED (the Kani twins of `sub` run all forms on real nalgebra storage);
+      K5 the inner loop `for i in 0..C.len() { C[i] = E; }` is kept with C -> `out`, MC -> the matrix operand's line, the vector operand unchanged.
+    Returns (the inner loop as text over (lhs, rhs, out) where the matrix operand now denotes ONE line of the matrix, whether the outer pairing is the expected one, a description)."""
+    pat, body = vlib.macro_arm_body(macro_text, 0)
+    names = re.findall(r"\$(\w+)\s*:\s*expr", pat)
+    if len(names) != len(params):
+        raise AnchorLost("kernel macro has %d parameters" % len(names))
+    b = body.strip()
+    m = re.match(r"unsafe\s*\{(.*)\}\s*;?\s*$", b, re.S)
+    if not m:
+        raise AnchorLost("kernel macro body is not `unsafe { .. }`")
+    b = re.sub(r"//[^\n]*", "", m.group(1)).strip()
+    alias = {}
+    def take_alias(mm):
+        alias[mm.group(2)] = mm.group(4)
+        return ""
+    b = re.sub(r"let\s+(mut\s+)?(\w+)\s*=\s*&(mut\s+)?\(\*\$(\w+)\)\s*;", take_alias, b)
+    for mn, p in zip(names, params):
+        for rx in (r"\(\s*&\s*mut\s*\(\s*\*\s*\$%s\s*\)\s*\)", r"\(\s*&\s*mut\s*\*\s*\$%s\s*\)", r"\(\s*&\s*\(\s*\*\s*\$%s\s*\)\s*\)", r"\(\s*&\s*\*\s*\$%s\s*\)", r"\(\s*\*\s*\$%s\s*\)", r"\*\s*\$%s\b"):
+            b = re.sub(rx % mn, p, b)
+    for a, mn in alias.items():
+        p = params[names.index(mn)]
+        b = re.sub(r"\*%s\b" % a, p, b)
+        b = re.sub(r"\b%s\b" % a, p, b)
+    if "$" in b:
+        raise AnchorLost("untranslated macro variable left in kernel body")
+    b = b.strip()
+    line = "column" if kern in ("mat_vec", "vec_mat") else "row"
+    mat = "lhs" if kern in ("mat_vec", "mat_row") else "rhs"
+    mo = re.match(r"for\s+\(\s*mut\s+(\w+)\s*,\s*(\w+)\s*\)\s+in\s+out\.(column|row)_iter_mut\(\)\.zip\(\s*(lhs|rhs)\.(column|row)_iter\(\)\s*\)\s*\{", b)
+    if not mo:
+        raise AnchorLost("kernel is not `for (mut c, m) in out.<line>_iter_mut().zip(<matrix>.<line>_iter())`")
+    pairing_ok = (mo.group(3) == line and mo.group(5) == line and mo.group(4) == mat)
+    detail = "the outer loop pairs %ss of out with %ss of %s; the %s kernel must pair %ss of out with %ss of %s" % (mo.group(3), mo.group(5), mo.group(4), kern, line, line, mat)
+    e = vlib.match_brace(b, mo.end() - 1)
+    if b[e:].strip():
+        raise AnchorLost("statements after the outer loop")
+    inner = b[mo.end():e - 1].strip()
+    inner = re.sub(r"\b%s\b" % mo.group(1), "out", inner)
+    inner = re.sub(r"\b%s\b" % mo.group(2), mo.group(4), inner)
+    inner, n = re.subn(r"for i in 0\.\.", "for i in iter: 0..", inner)
+    if n != 1 or "zip(" in inner or "iter()" in inner or "iter_mut()" in inner or "add_to" in inner:
+        raise AnchorLost("the inner kernel is not a single index loop")
+    return inner, pairing_ok, detail
